@@ -43,7 +43,16 @@ def write_tree(sc, root, version):
             extra = ["-c", sc.write("%s/typeshare.toml" % root, text)]
         else:
             sc.write("%s/%s/src/lib.rs" % (root, crate), text)
+    if OLD_SOURCES[0]:
+        # the inputs carry old time stamps (a checkout, `cp -p`, an unpacked archive): what is written must not depend on them
+        for d, _, fs in os.walk(sc.path(root), topdown=False):
+            for f in fs:
+                os.utime(os.path.join(d, f), (1000000000, 1000000000))
+            os.utime(d, (1000000000, 1000000000))
     return extra
+
+
+OLD_SOURCES = [False]
 
 
 def outputs_of(dirpath):
@@ -67,6 +76,8 @@ def run(check):
                   "repeats a version or returns to an earlier one" % maxlen)
     mismatches = 0
     for h in range(nh):
+        OLD_SOURCES[0] = (h % 3 == 1)
+        check.count("sources-with-old-time-stamps" if OLD_SOURCES[0] else "sources-freshly-written")
         lang = LANGS[h % 6]
         multi = (h // 6) % 2 == 0
         crates = rng.sample(["alpha", "beta-x", "gamma"], rng.randint(1, 3)) if multi else ["one"]
